@@ -101,6 +101,59 @@ def to_xml(spec):
   return '\n'.join(lines)
 
 
+def dfs_order(spec):
+  """reorder bodies into document (depth-first) order = MuJoCo body id order, remapping parents"""
+  bodies = spec['bodies']
+  kids = {i: [] for i in range(-1, len(bodies))}
+  for i, b in enumerate(bodies):
+    kids[b['parent']].append(i)
+  order = []
+
+  def walk(i):
+    order.append(i)
+    for c in kids[i]:
+      walk(c)
+  for r in kids[-1]:
+    walk(r)
+  new_index = {old: new for new, old in enumerate(order)}
+  out = []
+  for old in order:
+    b = dict(bodies[old])
+    b['parent'] = -1 if b['parent'] == -1 else new_index[b['parent']]
+    out.append(b)
+  spec = dict(spec)
+  spec['bodies'] = out
+  return spec
+
+
+def exact_params(spec):
+  """what the loader must produce for the kinematic fields, as exact rationals (validated against the loaded System by the checks)"""
+  from fractions import Fraction
+  fr = lambda v: [Fraction(repr(float(x))) for x in v]
+  tpos, trot, jpos, ang, vel = [], [], [], [], []
+  for b in spec['bodies']:
+    free = any(j['type'] == 'free' for j in b['joints'])
+    tpos.append([Fraction(0)] * 3 if free else fr(b['pos']))
+    trot.append([Fraction(1), Fraction(0), Fraction(0), Fraction(0)] if free else fr(b['quat']))
+    nj = [j for j in b['joints'] if j['type'] != 'free']
+    jpos.append(fr(nj[0]['pos']) if nj else [Fraction(0)] * 3)
+    for j in b['joints']:
+      if j['type'] == 'free':
+        for k in range(3):
+          vel.append([Fraction(int(i == k)) for i in range(3)])
+          ang.append([Fraction(0)] * 3)
+        for k in range(3):
+          ang.append([Fraction(int(i == k)) for i in range(3)])
+          vel.append([Fraction(0)] * 3)
+      elif j['type'] == 'hinge':
+        ang.append(fr(j['axis']))
+        vel.append([Fraction(0)] * 3)
+      else:
+        vel.append(fr(j['axis']))
+        ang.append([Fraction(0)] * 3)
+  return {'link.transform.pos': tpos, 'link.transform.rot': trot, 'link.joint.pos': jpos, 'dof.motion.ang': ang, 'dof.motion.vel': vel}
+
+
 def random_forest(rng, nlinks=None, max_stack=3, free_root_p=0.5, ortho=False, offsets=True, actuators=0, limits_p=0.0, joint_props=False,
                   geoms=True, stack_words=None):
   """random kinematic forest; stacks share one anchor (brax requirement)."""
@@ -134,7 +187,8 @@ def random_forest(rng, nlinks=None, max_stack=3, free_root_p=0.5, ortho=False, o
     if geoms:
       b['geoms'].append({'type': 'sphere', 'size': (0.1,), 'pos': (0, 0, 0), 'quat': (1, 0, 0, 0), 'contype': 0, 'conaffinity': 0})
     bodies.append(b)
-  spec = {'bodies': bodies, 'actuators': []}
+  spec = dfs_order({'bodies': bodies, 'actuators': []})
+  bodies = spec['bodies']
   jn = [j for b in bodies for j in b['joints'] if j['type'] != 'free']
   for _ in range(actuators if jn else 0):
     j = rng.choice(jn)
